@@ -220,12 +220,22 @@ pub fn enc_qevents(evs: &[Ev], head: u128) -> Vec<u128> {
     o
 }
 
+thread_local! {
+    /// the next rigs are built on a transport that requires the legacy queue layout
+    pub static RIG_LEGACY: std::cell::Cell<bool> = std::cell::Cell::new(false);
+}
+
 impl<const N: usize> Rig<N> {
     pub fn new(ctx: &mut Ctx, indirect: bool, event_idx: bool, ap: bool, start: u16) -> Option<Self> {
         hal::reset();
         BUFIDS.with(|b| b.borrow_mut().clear());
         virtio_drivers::verif::set_observer(Some(observer));
-        let st = TState::new(DeviceType::Block, 0, 2, N as u32);
+        let mut st = TState::new(DeviceType::Block, 0, 2, N as u32);
+        // the legacy (pre-1.0) layout: one contiguous region, used ring on the next page boundary; the queue's own pointers
+        // into it must agree with what is registered (every later operation goes through them)
+        let legacy = RIG_LEGACY.with(|l| l.get());
+        st.legacy = legacy;
+        if legacy { ctx.tr.note("hist_legacy_layout"); }
         let (mut t, st) = ModelTransport::new(st);
         let q = VirtQueue::<LedgerHal, N>::new(&mut t, 0, indirect, event_idx, ap).ok()?;
         let mut q = Box::new(q);
@@ -237,7 +247,7 @@ impl<const N: usize> Rig<N> {
         // platform (device addresses as dma_alloc returned them; virtual and device addresses never coincide here)
         let r1 = hal::region_of(a.desc, 1).unwrap_or((0, 0, 9));
         let r2 = hal::region_of(a.dev, 1).unwrap_or((0, 0, 9));
-        ctx.tr.line(612, &[0, N as u128, a.desc as u128, a.drv as u128, a.dev as u128, r1.0 as u128, r1.1 as u128, r2.0 as u128, r2.1 as u128, r1.2 as u128, r2.2 as u128], &[1]);
+        ctx.tr.line(612, &[legacy as u128, N as u128, a.desc as u128, a.drv as u128, a.dev as u128, r1.0 as u128, r1.1 as u128, r2.0 as u128, r2.1 as u128, r1.2 as u128, r2.2 as u128], &[1]);
         if r1.2 == 9 || r2.2 == 9 { ctx.tr.note("queue_registered_outside_dma_memory"); return None; }
         ctx.tr.line(100, &[N as u128, indirect as u128, event_idx as u128], &[]);
         if start != 0 {
@@ -491,6 +501,13 @@ impl<const N: usize> Rig<N> {
         ctx.tr.line(132, &[ui as u128, uid as u128], &match pk { Some(v) => [1, v as u128], None => [0, 0] });
         ctx.tr.line(133, &[], &[self.q.available_desc() as u128]);
         if self.honest {
+            // C03 (kind 168): the free count follows from what the outstanding chains hold: one descriptor per buffer, or one per
+            // chain when it went through an indirect table. available_desc() is SIZE - held on a direct queue; on an indirect
+            // queue it is documented as SIZE while any descriptor is free (any chain fits) and 0 when none is
+            let held: usize = self.subs.iter().map(|s| { let n = s.ins.len() + s.outs.len(); if self.indirect && n > 1 { 1 } else { n } }).sum();
+            ctx.tr.line(168, &[self.q.available_desc() as u128, N as u128, held as u128, self.indirect as u128], &[1]);
+        }
+        if self.honest {
             // C03 (kind 162): what the device has published and the driver has not consumed is visible to the
             // driver's queries: can_pop iff something is pending, peek_used names the element at the cursor
             let pending = ui != self.last_used;
@@ -680,7 +697,9 @@ pub fn standard_histories(ctx: &mut Ctx, name: &str, nhist: u64) {
         let start = match ctx.rng.below(4) { 0 => 0, 1 => 65535 - ctx.rng.below(6) as u16, 2 => 32767 - ctx.rng.below(4) as u16, _ => ctx.rng.next() as u16 };
         ctx.tr.scenario(&format!("{}-h{}-n{}-f{}-s{}", name, h, size, flags, start));
         let nops = if size <= 16 { 60 + ctx.rng.below(120) as usize } else { 60 };
+        RIG_LEGACY.with(|l| l.set(h % 4 == 3));
         history_dyn(ctx, size, flags, start, nops, 64);
+        RIG_LEGACY.with(|l| l.set(false));
     }
 }
 
